@@ -57,3 +57,10 @@ func (v *VerifView) VerifMembership(event string, nodeID uint64) {
 		c.NotifyUpdate(n)
 	}
 }
+
+// VerifNotify calls Cluster.Notify (the Raft event path) on a Cluster that shares this view and its local Raft
+// information function.
+func (v *VerifView) VerifNotify() {
+	c := &Cluster{shardView: v.d.shardView, infoF: v.d.infoF, log: zap.NewNop().Sugar(), not: make(chan struct{}, 1)}
+	c.Notify()
+}
